@@ -246,7 +246,26 @@ func (g *detGen) observe(v *Node) *Node {
 }
 
 func (g *detGen) form() *Node {
-	switch g.r.Pick([]int{10, 3, 2, 2, 2, 2, 1, 2, 3, 2, 2, 2, 3, 3, 1, 8, 3, 3, 3, 3}) {
+	switch g.r.Pick([]int{10, 3, 2, 2, 2, 2, 1, 2, 3, 2, 2, 2, 3, 3, 1, 8, 3, 3, 3, 3, 3}) {
+	case 20:
+		// errors that could name several offenders at once
+		pk := g.sym("un")
+		switch g.r.Intn(4) {
+		case 0:
+			// a package exporting several names it never binds
+			names := []*Node{A("export")}
+			for _, n := range []string{"zeta", "alpha", "mu", "omega", "beta", "kappa"}[:g.r.Range(2, 6)] {
+				names = append(names, QS(n))
+			}
+			g.out = append(g.out, Call("progn", Call("in-package", QS(pk)), L(names...), Call("in-package", QS("user"))))
+			return Call("use-package", QS(pk))
+		case 1:
+			return Call("sorted-map", Call("list", I(1)), I(1), Call("vector", I(2)), I(2), A("car"), I(3))
+		case 2:
+			return L(A("let"), L(L(A("a"), I(1)), L(A("a"), I(2)), L(A("b"), I(3)), L(A("b"), I(4))), Call("list", A("a"), A("b")))
+		default:
+			return L(L(A("lambda"), L(A("&key"), A("p"), A("q")), Call("list", A("p"), A("q"))), A(":r"), I(1), A(":s"), I(2), A(":t"), I(3))
+		}
 	case 18:
 		// text handed to the library parsers, well-formed and not quite: what
 		// they make of it may not depend on the host (time zone, locale)
@@ -455,7 +474,10 @@ func (e *detEngine) Gen(r *Rand, tier string) any {
 			Call("s:validate", Call("s:int", Call("s:gt", I(5))), I(1)),
 			L(Call("compose", A("car"), A("cdr")), I(1), I(2)),
 			Call("funcall", Call("s:in", Str("x")), Str("y"), Str("z")),
-			Call("json:dump-string", g.closure())))
+			Call("json:dump-string", g.closure()),
+			A("(load-string \"(car 5)\" :name \"rel/dir/x.lisp\")"),
+			A("(load-bytes (to-bytes \"(defun deep (n) (if (= n 0) (error 'bottom n) (+ 1 (deep (- n 1))))) (deep 3)\") :name \"./sub/y.lisp\")"),
+			A("(load-string \"(progn (load-string \\\"(error 'inner 1)\\\" :name \\\"a/b/inner.lisp\\\"))\" :name \"outer.lisp\")")))
 	case 3:
 		fin := g.sharedClosure()
 		c.Forms = append(append(g.out[len(g.out)-1:], c.Forms...), fin)
